@@ -42,6 +42,7 @@ inductive V where
                                                -- the cache store of the enfolding cache), whether the wrapped storage was
                                                -- called, how often the listeners were notified, the exception a storage
                                                -- call ended in
+  | pager (ga : Int → Int → Option Store.St)   -- any storage, seen through its `get_all(limit, offset)` (`none`: it raises)
   | alog (audits : List AuditRec) (decisions : List Bool)
                                                -- what the guard writes: the audit records and the decision-log records
                                                -- (allowed / rejected) so far
@@ -72,6 +73,7 @@ def truth : V → Bool
   | .pols l => !l.isEmpty
   | .eworld _ _ _ _ _ => true
   | .alog _ _ => true
+  | .pager _ => true
 
 /-- the answer of `satisfied` as the checkers see it: its truthiness, or the exception -/
 def toR (m : M) : R := m.map truth
@@ -123,6 +125,7 @@ def cmpIn (a b : M) : M :=
     | .py u, .py (.list xs) => ofBool (memList u xs)
     | .py u, .py (.tuple xs) => ofBool (memList u xs)
     | .py (.str s), .py (.str t) => ofBool (isInfix s t)
+    | .py u, .seq xs => ofBool (xs.any fun v => match v with | .py w => pyEq u w | _ => false)   -- a list of objects: scan
     | _, _ => raiseM
 
 def cmpNotIn (a b : M) : M := pyNot (cmpIn a b)
@@ -137,6 +140,7 @@ def isinstanceM (a : M) (ty : String) : M :=
         | "dict" => isDict v
         | _ => false)
     | .set _ => ofBool (ty == "set")
+    | .attrs _ => ofBool (ty == "dict")               -- an attribute dictionary is a dict
     | _ => ofBool false
 
 /-- `list(x)` -/
@@ -518,6 +522,16 @@ def setDictItemM (a name v : M) : M :=
     | .obj fs, .py (.str cs) => .ok (.obj (objSet (String.ofList cs) w fs))
     | _, _ => raiseM
 
+/-- `object.__setattr__(self, name, value)` / `self.__dict__[name] = value` as an effect on the object the method acts on.
+Should what follows raise, the changed object is what is left behind (the method then ends in the bare object). -/
+def objSetK (a name v : M) (k : V → M) : M :=
+  bindM a fun x => bindM name fun n => bindM v fun w => match x, n with
+    | .obj fs, .py (.str cs) =>
+      (match k (.obj (objSet (String.ofList cs) w fs)) with
+       | .error _ => .ok (.obj (objSet (String.ofList cs) w fs))
+       | r => r)
+    | _, _ => raiseM
+
 /-- `getattr(obj, name, default)` on such an object -/
 def getattrObjM (a name dflt : M) : M :=
   bindM a fun x => bindM name fun n => bindM dflt fun d => match x, n with
@@ -691,6 +705,20 @@ def callProcM (m : M) (k : V → V → M) : M :=
   match m with
   | .ok (.seq [r, w]) => k r w
   | other => other
+
+/-! ### generators: `while True` with a bound on the rounds, the abstract `get_all` of a storage -/
+
+/-- `while True: BODY` where the body ends the function or goes on with the next round; `fuel` bounds the rounds (out of fuel,
+the loop is simply left - the same convention as the model's `retrLoop`, whose bound is shown never to be reached) -/
+def whileS : Nat → (List V → (List V → M) → (List V → M) → M) → List V → (List V → M) → M
+  | 0, _, st, rest => rest st
+  | n + 1, body, st, rest => body st (fun st' => whileS n body st' rest) rest
+
+/-- `self.get_all(limit, offset)` of whatever storage `self` is -/
+def pagerGetAllM (self limit offset : M) : M :=
+  bindM self fun s => bindM limit fun l => bindM offset fun o => match s, l, o with
+    | .pager ga, .py (.int l), .py (.int o) => (match ga l o with | some pg => .ok (.pols pg) | Option.none => raiseM)
+    | _, _, _ => raiseM
 
 /-! ### the guard's log records as effects on an explicit log value -/
 
